@@ -183,9 +183,35 @@ def make_case(r, jobs=None):
         if r.random() < 0.7 else None
     inj = {'seed': r.randint(0, 10**6), 'prob': r.choice([0.01, 0.05, 0.2]),
            'max_ms': r.choice([1, 2, 5])} if r.random() < 0.7 else None
+    same_size = False
+    if r.random() < 0.2:
+        # Only size-preserving steps (a one-character leaf for another): the
+        # successive inputs differ, but nothing about their size does - not
+        # the token count, not the length of their serialised form.
+        same_size = True
+        erase_only = False
+        n = r.randint(6, 12)
+        names = r.sample('abcdefghjkmnpqrstuvw', r.randint(2, 4))
+        lines = ['(set-logic QF_LIA)'] + [
+            f'(declare-const {v} Int)' for v in names]
+        for _ in range(n):
+            lines.append(f'(assert ({r.choice(["<", ">", "<=", ">="])} '
+                         f'{r.choice(names)} {r.randint(2, 9)}))')
+        text = '\n'.join(lines + ['(check-sat)']) + '\n'
+        pred = r.choice(['all', f'ntok>={len(workload.tokens_of(text))}',
+                         'has:check-sat'])
+        rules = realrun.simple_spec(pred)
+        strat = 'ddmin'
+        j = jobs or r.choice([2, 2, 3, 4])
+        opts = ['--strategy', strat, '-j', str(j), '--timeout', '20',
+                '--disable-all'] + r.choice([
+                    ['--constants'], ['--replace-by-variable'],
+                    ['--constants', '--replace-by-variable'],
+                    ['--constants', '--replace-by-variable',
+                     '--arith-negate-relation']])
     desc = {'input': text, 'rules': rules, 'predicate': pred,
             'strategy': strat, 'jobs': j, 'delay': delay, 'inject': inj,
-            'erase_only': erase_only}
+            'erase_only': erase_only, 'same_size': same_size}
     return text, rules, opts, delay, inj, desc
 
 
@@ -213,6 +239,9 @@ def run_case(res, wd, case):
     if s.get('writes', 0) >= 1:
         res.add_distinct(s['signature'])
     res.add_set('configs', f'{desc["strategy"]}/j{desc["jobs"]}')
+    if desc.get('same_size'):
+        res.count('same_size_runs')
+        res.count('same_size_writes', s.get('writes', 0))
     return run, s
 
 
